@@ -30,6 +30,10 @@ NoCons(q) == [q EXCEPT !.m = 0, !.qi = <<>>, !.bi = <<>>, !.cl = <<>>, !.cu = <<
 NextNoCons == \E o \in Os, v \in Vs, c \in {"L", "D", "C", "Q"}, lay \in Lay :
                 \/ vec' = Ev(NoCons(Minimal(o, v, c)), lay, "none")
                 \/ \E s \in {"minimize", "maximize"} : vec' = Ev(NoCons(Dense(o, v, c, s)), lay, "none")
+\* the sparse sections list <<constraint, ...>> entries in ANY order: one constraint's entries interleaved with another's
+Interleaved(q) == [q EXCEPT !.qi = << @[1], @[3], @[2] >>, !.bi = << @[1], @[3], @[2] >>]
+NextInterleaved == \E o \in Os, v \in {"C", "M"}, c \in {"L", "D", "C", "Q"}, lay \in Lay, s \in {"minimize", "maximize"} :
+                     vec' = Ev(Interleaved(Dense(o, v, c, s)), lay, "none")
 NextSides == \E c \in {"L", "Q"}, lay \in Lay : vec' = Ev(Sides(c), lay, "none")
 NextFaults == \/ \E f \in {"bad_type", "bad_sense", "bad_count", "eof", "bad_b0_first"}, lay \in Lay, c \in {"N", "L", "Q"} : vec' = Ev(Dense("Q", "M", c, "minimize"), lay, f)
               \/ \E lay \in Lay, o \in {"L", "Q"}, c \in {"L", "Q"} : vec' = Ev(Dense(o, "M", c, "minimize"), lay, "bad_bi_first")
@@ -37,7 +41,7 @@ Models == IF "MODELS" \in DOMAIN IOEnv THEN ndJsonDeserialize(IOEnv.MODELS) ELSE
 NextRandom == \E k \in DOMAIN Models : vec' = Ev(Models[k].model, Models[k].layout, "none")
 Step(A) == phase = 0 /\ phase' = 1 /\ A
 Init == vec = <<>> /\ phase = 0
-Next == Step(NextCodes \/ NextNoCons \/ NextSides \/ NextFaults)
+Next == Step(NextCodes \/ NextNoCons \/ NextInterleaved \/ NextSides \/ NextFaults)
 NextR == Step(NextRandom)
 Emit == phase = 1 => PrintT("VEC " \o ToJson(vec))
 =============================================================================
